@@ -752,12 +752,13 @@ class World:
     def contract_for(self, fn):
         return self.contracts.get((fn.module.name, fn.qualname))
 
-    def callee_contract(self, target, result=None, requires=(), ensures=()):
+    def callee_contract(self, target, result=None, requires=(), ensures=(),
+                        raises=None):
         """Register the contract a call site sees for repository function
         `target` (modular verification: callers never look at its body)."""
         from .verify import Contract
         c = Contract(target, requires=requires, ensures=ensures,
-                     result=result or TVal)
+                     result=result or TVal, raises=raises)
         c.resolve(self)
         self.contracts[(c.module.name, c.qualname)] = c
         return c
@@ -788,6 +789,16 @@ class World:
                                                   j + 1), 'pre', line)
         if c.result is None:
             raise Unsupported('contract %s has no result type' % c.short)
+        if c.may_raise:
+            # the callee may also raise one of its declared exceptions
+            # (nondeterministically, as far as the caller can tell)
+            for exc_name in c.raises:
+                b = z3.Bool(S.fresh_name('raises_%s_%s' % (
+                    c.short.split('.')[-1], exc_name)))
+                if it.branch(b):
+                    it.calls.append(('contract:' + c.short, tuple(
+                        fr.vars.get(p) for p in c.param_order(fn)), None))
+                    it.raise_(exc_name, node=node)
         facts = []
         res = c.result.fresh('ret_' + c.short.split('.')[-1], facts)
         for f in facts:
@@ -796,8 +807,6 @@ class World:
         for e in c.ensures:
             it.path.assume(S.as_bool_term(it.truth(
                 self.spec_eval(it, e, fr))))
-        if c.may_raise:
-            raise Unsupported('callee contract with exceptions')
         it.calls.append(('contract:' + c.short, tuple(
             fr.vars.get(p) for p in c.param_order(fn)), res))
         return res
